@@ -30,25 +30,33 @@ type codec struct {
 	parse     func(dst, src []byte) int
 	parseStr  func(string) string
 	parseStrB func([]byte) string
-	shape     *regexp.Regexp
-	unicode   bool
-	tokens    []string
+	// the same entry points instantiated with defined types (the constraints are ~string | ~[]byte)
+	parseStrN  func(nstr) string
+	parseStrNB func(nbytes) string
+	formatN    func(nstr) []byte
+	formatStrN func(nbytes) string
+	shape      *regexp.Regexp
+	unicode    bool
+	tokens     []string
 }
 
+type nstr string
+type nbytes []byte
+
 var codecs = []codec{
-	{name: "octal", format: strz.OctalFormat[[]byte], formatS: strz.OctalFormat[string], formatStr: strz.OctalFormatToString[[]byte], parse: strz.OctalParse, parseStr: strz.OctalParseToString[string], parseStrB: strz.OctalParseToString[[]byte],
+	{name: "octal", format: strz.OctalFormat[[]byte], formatS: strz.OctalFormat[string], formatStr: strz.OctalFormatToString[[]byte], parse: strz.OctalParse, parseStr: strz.OctalParseToString[string], parseStrB: strz.OctalParseToString[[]byte], parseStrN: strz.OctalParseToString[nstr], parseStrNB: strz.OctalParseToString[nbytes], formatN: strz.OctalFormat[nstr], formatStrN: strz.OctalFormatToString[nbytes],
 		shape:  regexp.MustCompile(`^(\\[0-7]{3})*$`),
 		tokens: []string{`\`, `\\`, `\1`, `\10`, `\101`, `\377`, `\400`, `\777`, `\000`, `\18`, `\1a1`, `\8`, `1`, `01`, `7`, `8`, `a`, `x`, ` `, "\xff", `\12\`, `\141`, `\0`, `\00`},
 	},
-	{name: "hex", format: strz.HexFormat[[]byte], formatS: strz.HexFormat[string], formatStr: strz.HexFormatToString[[]byte], parse: strz.HexParse, parseStr: strz.HexParseToString[string], parseStrB: strz.HexParseToString[[]byte],
+	{name: "hex", format: strz.HexFormat[[]byte], formatS: strz.HexFormat[string], formatStr: strz.HexFormatToString[[]byte], parse: strz.HexParse, parseStr: strz.HexParseToString[string], parseStrB: strz.HexParseToString[[]byte], parseStrN: strz.HexParseToString[nstr], parseStrNB: strz.HexParseToString[nbytes], formatN: strz.HexFormat[nstr], formatStrN: strz.HexFormatToString[nbytes],
 		shape:  regexp.MustCompile(`^(\\x[0-9A-F]{2})*$`),
 		tokens: []string{`\`, `\\`, `\x`, `\x4`, `\x41`, `\xff`, `\xFF`, `\x00`, `\xG1`, `\x4G`, `\X41`, `x`, `x41`, `4`, `41`, `f`, `g`, ` `, "\xff", `\x\`, `\x4\`, `\x7a`, `\x_1`, `\x+1`},
 	},
-	{name: "unicode", unicode: true, format: strz.UnicodeFormat[[]byte], formatS: strz.UnicodeFormat[string], formatStr: strz.UnicodeFormatToString[[]byte], parse: strz.UnicodeParse, parseStr: strz.UnicodeParseToString[string], parseStrB: strz.UnicodeParseToString[[]byte],
+	{name: "unicode", unicode: true, format: strz.UnicodeFormat[[]byte], formatS: strz.UnicodeFormat[string], formatStr: strz.UnicodeFormatToString[[]byte], parse: strz.UnicodeParse, parseStr: strz.UnicodeParseToString[string], parseStrB: strz.UnicodeParseToString[[]byte], parseStrN: strz.UnicodeParseToString[nstr], parseStrNB: strz.UnicodeParseToString[nbytes], formatN: strz.UnicodeFormat[nstr], formatStrN: strz.UnicodeFormatToString[nbytes],
 		shape:  regexp.MustCompile(`^(\\U[0-9A-F]{8})*$`),
 		tokens: []string{`\`, `\\`, `\U`, `\U0011`, `\U0000004`, `\U00000041`, `\U0001F600`, `\U0010FFFF`, `\U00110000`, `\UFFFFFFFF`, `\U0000D800`, `\U0000FFFD`, `\U000000e9`, `\U0000G041`, `\U0000004G`, `\u00000041`, `U`, `0`, `00000041`, `F`, "\xff", `\U0000\`, `\U1F600`, `日`},
 	},
-	{name: "utf16", unicode: true, format: strz.Utf16Format[[]byte], formatS: strz.Utf16Format[string], formatStr: strz.Utf16FormatToString[[]byte], parse: strz.Utf16Parse, parseStr: strz.Utf16ParseToString[string], parseStrB: strz.Utf16ParseToString[[]byte],
+	{name: "utf16", unicode: true, format: strz.Utf16Format[[]byte], formatS: strz.Utf16Format[string], formatStr: strz.Utf16FormatToString[[]byte], parse: strz.Utf16Parse, parseStr: strz.Utf16ParseToString[string], parseStrB: strz.Utf16ParseToString[[]byte], parseStrN: strz.Utf16ParseToString[nstr], parseStrNB: strz.Utf16ParseToString[nbytes], formatN: strz.Utf16Format[nstr], formatStrN: strz.Utf16FormatToString[nbytes],
 		shape:  regexp.MustCompile(`^(\\u[0-9A-F]{4})*$`),
 		tokens: []string{`\`, `\\`, `\u`, `\u00`, `\u004`, `\` + `u0041`, `\uD83D`, `\uDE00`, `\uD800`, `\uDBFF`, `\uDC00`, `\uDFFF`, `\` + `uFFFD`, `\` + `uFFFF`, `\ud83d`, `\ude00`, `\uG041`, `\u004G`, `\U0041`, `u`, `0041`, `D`, "\xff", `\uD8\`, `\uD83D\`, `\` + `u00E9`, `\` + `u65E5`, `e`},
 	},
@@ -95,6 +103,9 @@ func runRT(c rtCase, r *pb.Rec) error {
 	}
 	if e3 != string(enc) {
 		return fmt.Errorf("%s FormatToString differs: %q vs %q", cd.name, e3, enc)
+	}
+	if e4, e5 := cd.formatN(nstr(c.S)), cd.formatStrN(nbytes(c.S)); string(e4) != string(enc) || e5 != string(enc) {
+		return fmt.Errorf("%s Format differs for defined string/[]byte types on %q: %q / %q vs %q", cd.name, c.S, e4, e5, enc)
 	}
 	if !cd.shape.Match(enc) {
 		return fmt.Errorf("%s Format(%q) = %q: not a sequence of fixed-width upper-case escapes", cd.name, c.S, enc)
@@ -200,6 +211,9 @@ func checkTotal(cd codec, in []byte) error {
 	}
 	if s2 := cd.parseStrB(in); s2 != s {
 		return fmt.Errorf("%s ParseToString differs for string and []byte input %q: %q vs %q", cd.name, in, s, s2)
+	}
+	if s3, s4 := cd.parseStrN(nstr(in)), cd.parseStrNB(nbytes(in)); s3 != s || s4 != s {
+		return fmt.Errorf("%s ParseToString differs for defined string/[]byte types on input %q: %q / %q vs %q", cd.name, in, s3, s4, s)
 	}
 	if bytes.IndexByte(in, '\\') < 0 && s != string(in) {
 		return fmt.Errorf("%s Parse(%q) = %q: backslash-free input changed", cd.name, in, s)
